@@ -16,7 +16,7 @@ TEXT = ("M DEFINITIONS AUTOMATIC TAGS ::= BEGIN IMPORTS Tb FROM Mb; C ::= CHOICE
         "S ::= SEQUENCE { x INTEGER DEFAULT 5, y C OPTIONAL } D ::= CHOICE { p BOOLEAN, q BOOLEAN } v INTEGER ::= 7 w BOOLEAN ::= TRUE END\n"
         "Mb DEFINITIONS AUTOMATIC TAGS ::= BEGIN Tb ::= NULL END")
 DEFAULT_ANN = '#[derive(AsnType, Debug, Clone, Decode, Encode, PartialEq, Eq, Hash)]'
-IMPORT_SETS = [[], ['foo::bar'], ['foo::bar', 'baz::*', 'crate::qux::Quux']]
+IMPORT_SETS = [[], ['foo::bar'], ['foo::bar', 'baz::*', 'crate::qux::Quux', 'user_defined::ext::Extra', 'useful::X']]     # the last two: paths that merely START with the letters `use`
 ANN_SETS = {'default': [DEFAULT_ANN], 'extra-derive': [DEFAULT_ANN, '#[derive(Default)]'], 'non-derive': [DEFAULT_ANN, '#[non_exhaustive]'],
             'twice': [DEFAULT_ANN, '#[derive(Debug, Clone, PartialOrd)]'], 'empty': [],
             # derives outside the required set listed more than once, adjacent and not adjacent
